@@ -92,7 +92,8 @@ def run(repo, run, tier):
                 run.report("C01.2", fc.rel, fc.attr_nodes["tableau_final"],
                            "declared order %d but the order-%d condition of tree %s has residual %.3g (%d conditions fail); "
                            "attained order is %d" % (p, n0, t0, res0, len(fails), n0 - 1),
-                           qual=name, text="%s order conditions, declared order %d" % (name, p),
+                           qual=name, text="%s order conditions: declared order %d, attained %d, first failing tree %s residual %.3g" % (
+                               name, p, n0 - 1, t0, res0),
                            facts=dict(first_failures=fails[:5], attained_order=n0 - 1))
             # estimator
             if len(rows) == 2:
@@ -128,7 +129,8 @@ def run(repo, run, tier):
                 run.report("C01.4", fc.rel, fc.attr_nodes["tableau_intermediate"],
                            "declared order %d but the degree-%d word %s of the composition differs from exp(h(A+B)) by %.3g; "
                            "attained order for a generic separable problem is %d" % (p, n0, w0, r0, n0 - 1),
-                           qual=name, text="%s composition order, declared order %d" % (name, p),
+                           qual=name, text="%s composition order: declared %d, attained %d, first failing word %s residual %.3g" % (
+                               name, p, n0 - 1, w0, r0),
                            facts=dict(first_failures=bad[:4], attained_order=n0 - 1))
     run.extra["order_conditions_evaluated"] = total_conditions
     richardson(repo, run, r5, info)
